@@ -346,6 +346,17 @@ fn run_case(case: &Value, args: &Args, rng: &mut Rng) -> Result<(Value, u64), Fa
         }
         let vb = b.view().map_err(|e| fail("tool:view", e))?;
         let hb = b.hello().map_err(|e| fail("C01:hello-error", err_class(&e)))?;
+        // the second history is held to the same per-replica predicates before it is compared
+        let frb = frontier(&vb.reachable, &u.real_parents());
+        if vb.heads != frb {
+            return Err(fail("C09:frontier", format!("second history: head set {:?} is not the sorted frontier {:?}", vb.heads.iter().map(|h| u.label_of(h)).collect::<Vec<_>>(), frb.iter().map(|h| u.label_of(h)).collect::<Vec<_>>())));
+        }
+        if vb.reachable != all_ids {
+            return Err(fail("C08:commit-set", format!("second history committed {} commands, delivered {}", vb.reachable.len(), all_ids.len())));
+        }
+        if let Some(m) = check_once(&u, &vb.seq, &vb.reachable) {
+            return Err(fail("C02:once", format!("second history: {m}")));
+        }
         if vb != after || hb != hello {
             return Err(fail("C01:diverge", format!("two histories of one DAG disagree: A {} B {}", view_json(&u, &after), view_json(&u, &vb))));
         }
